@@ -86,6 +86,11 @@ func rlInput(id run.CaseID) (Paths, rectI) {
 		}
 		lines = append(lines, p)
 	}
+	if r.Chance(0.15) { // a rectangle corner, a line vertex or a line/rectangle crossing exactly on the origin
+		dx, dy := anchorShift(r, []Paths{{{{X: q.L, Y: q.T}, {X: q.R, Y: q.T}, {X: q.R, Y: q.B}, {X: q.L, Y: q.B}}}}, []Paths{lines})
+		lines = gen.Translate(lines, dx, dy)
+		q = rectI{q.L + dx, q.T + dy, q.R + dx, q.B + dy}
+	}
 	return lines, q
 }
 
